@@ -9,6 +9,7 @@ import time
 from typing import Any
 
 from .. import semfam, semfam2, semgen, semlean, semrun
+from . import c03_copy
 from ..runner import Check
 from ..translate import constraints as tconstraints
 
@@ -872,7 +873,8 @@ def run(ck: Check) -> None:
         "numbers are decimals with at most two fractional digits; IEEE rounding is not modelled",
         "discriminators: validity is jsonschema's reading AND OpenAPI's (the tag selects, through the written or implicit mapping, an alternative under which the value is valid); the Lean model rewrites the class of an alternative where the tagged union looks it up, the real pass rewrites the class itself: documents in which a discriminated definition is also referenced directly, or is discriminated with two different tag sets, are outside the model (counted as unmodelled)",
         "Dcg/Sem/Pyd.dump is our statement of model_dump(by_alias=True, exclude_unset=True) / .json(by_alias=True, exclude_unset=True); member order and the alternative pydantic's smart-mode union picks are not modelled (dumps are compared canonically, and only when `declared` holds or the document has no union)",
-        "`required` next to allOf, dataclass and TypedDict targets, and the default-off options reuse_model / collapse_root_models are covered by the end-to-end oracle only",
+        "`required` next to allOf: the copy of the inherited member (Parser.__override_required_field / _copy_data_types) is modelled (Dcg/Model/CopyTypes.lean) and compared with the real pass on every run; what the re-declared class accepts is judged by the end-to-end oracle (required-override family). Dataclass and TypedDict targets and the default-off options reuse_model / collapse_root_models are covered by the end-to-end oracle only",
+        "Dcg/Model/CopyTypes: pydantic's shallow `copy()` of a DataType is read as 'every attribute kept'; the back pointers parent / children are not modelled",
         "dataclass output has no aliases and no 'unset' state: documents with non-identifier member names are not sent to the dataclass target, and members that are absent in the instance (they dump as their default) are not counted as a difference",
         "pydantic-v1-style output runs on the pydantic.v1 shim of pydantic 2.x",
     ]
@@ -880,6 +882,10 @@ def run(ck: Check) -> None:
     campaign_focused(ck)
     campaign_random(ck, 70 if quick else 900)
     campaign_family(ck, 13 if quick else 130, 8 if quick else 100, 16 if quick else 96, 12 if quick else 96)
+    # an inherited member re-declared through `required` next to allOf: the copy of its (nested) data type
+    c03_copy.campaign_copy(ck, 17 if quick else 147, 150 if quick else 3000)
+    c03_copy.campaign_override(ck, 12 if quick else 98, c03_copy.QUICK_TARGETS if quick else FAMILY_TARGETS, oracle_doc)
+    ck.search_hooks.append(c03_copy.make_search(oracle_doc, match_none))
     ck.search_hooks.append(search)
     known_findings(ck)
 
@@ -891,8 +897,12 @@ def replay(ck: Check, path: str) -> int:
     ck.findings = []
     if "doc" in inp:
         oracle_doc(ck, camp, inp["doc"], tuple(inp.get("target", ["v2", "contype"])), [inp["instance"]] if "instance" in inp else None)
-    for f in ck.failures:
+    # the replay judges the recorded failure: the extra case oracle_doc adds (an undeclared member: known finding D19)
+    # is reported only when it is what was recorded
+    want = data.get("classification") or {}
+    fails = [f for f in ck.failures if not want or all(f.classification.get(k) == want.get(k) for k in ("oracle", "mechanism", "cause"))]
+    for f in fails:
         print("REPLAY-FAILS:", json.dumps(f.classification), f.observed[:300])
-    if not ck.failures:
+    if not fails:
         print("replay: the oracle does not fail on this input")
-    return 1 if ck.failures else 0
+    return 1 if fails else 0
